@@ -78,4 +78,16 @@ def workCb (handled : List (List St)) (rest : Nat) (raises : Bool) : List (List 
   if raises then handled.map (· ++ [.failed]) ++ List.replicate rest [.failed]
   else handled
 
+/-- `work_cb` with its intake filter: things whose uid is on the cancel list (`marks`) are advanced
+    to CANCELED and are NOT handed to the work routine; the routine handles the others one by one
+    (each is published in state `ok`) and raises when it reaches the `k`-th of them (`raiseAt = some k`);
+    then every thing that was handed to it is published FAILED -/
+def workCbMarked (ok : St) : List Bool → Nat → Option Nat → List (List St)
+  | [],          _, _       => []
+  | true :: ms,  j, raiseAt => [.canceled] :: workCbMarked ok ms j raiseAt
+  | false :: ms, j, raiseAt =>
+    (match raiseAt with
+     | none   => [ok]
+     | some k => if j < k then [ok, .failed] else [.failed]) :: workCbMarked ok ms (j + 1) raiseAt
+
 end RPVerif.Pipeline
